@@ -102,6 +102,21 @@ class Run:
         log("  MC %-18s %-22s %9d distinct %10d generated  %.1fs" % (m["spec"], m["cfg"], r["distinct"], r["generated"], r["wall_s"]))
         return r
 
+    def run_proof(self, pr):
+        """TLAPS proof (extra evidence next to the model-checking claim)"""
+        d = os.path.join(self.work, "proofs")
+        if not os.path.isdir(d):
+            shutil.copytree(os.path.join(ROOT, "spec", "proofs"), d)
+        t = time.time()
+        p = sh(["tlapm", "--threads", "8", pr["module"]], cwd=d, timeout=900)
+        m = re.search(r"All (\d+) obligations? proved", p.stdout)
+        if not m:
+            raise Infra("tlapm did not prove %s:\n%s" % (pr["module"], p.stdout[-2000:]))
+        r = {"module": "spec/proofs/" + pr["module"], "theorem": pr["what"], "obligations": int(m.group(1)), "discharged": int(m.group(1)),
+             "checker_cmd": "tlapm --threads 8 " + pr["module"], "wall_s": round(time.time() - t, 1)}
+        log("  PROOF %-18s %d obligations proved  %.1fs" % (pr["module"], r["obligations"], r["wall_s"]))
+        return r
+
     @staticmethod
     def _norm(text):
         try:
@@ -342,6 +357,8 @@ def check(prop, tier, seed, only_event=None):
             mcs.append(mm)
         with cf.ThreadPoolExecutor(max_workers=6 if tier == "quick" else 4) as ex:
             run.mc = list(ex.map(run.run_mc, mcs))
+        if p.get("proofs"):
+            run.extra["tlaps_proofs"] = [run.run_proof(pr) for pr in p["proofs"]]
         fids = p.get("fidelity", [])
         if fids:
             try:
